@@ -414,7 +414,8 @@ def _resize_discr(rep, model):
             return RH.on_getattr(self, interp, obj, name)
 
     for n_orig, n_new, off in ((4, 7, None), (4, 8, None), (5, 9, 1),
-                               (5, 8, 3), (6, 3, 2), (6, 6, None)):
+                               (5, 8, 3), (6, 3, 2), (7, 4, 1), (5, 2, 3),
+                               (6, 3, 0), (6, 3, None), (6, 6, None)):
         for bl, br in itertools.product((False, True), repeat=2):
             tag = '_resize_discr[%d->%d,offset=%s,bdry=(%s,%s)]' % (
                 n_orig, n_new, off, bl, br)
@@ -442,8 +443,16 @@ def _resize_discr(rep, model):
                 lo, hi = to_rat(lo), to_rat(hi)
                 k = Fr(int(bl) + int(br), 2)
                 cell = (hi - lo) / (Rat.const(n_new) - Rat.const(k))
-                num_l = off if off is not None else (n_new - n_orig) - (
-                    n_new - n_orig) // 2
+                # cells added on the left (negative: removed).  An explicit
+                # offset is the number of cells to add to / remove from the
+                # left (documented), i.e. the block `resize_array` copies
+                # starts `off` cells into the domain when shrinking
+                if off is None:
+                    num_l = (n_new - n_orig) - (n_new - n_orig) // 2
+                elif n_new >= n_orig:
+                    num_l = off
+                else:
+                    num_l = -off
                 if n_new == n_orig:
                     num_l = 0
                 # first node of the new grid
